@@ -1,6 +1,7 @@
 package oracle
 
 import (
+	"encoding/hex"
 	"math/big"
 	"strconv"
 	"strings"
@@ -227,6 +228,17 @@ func (c *Checker) afterPure(line, op string, args []string, obs string) {
 			val, ok = normBig(in)
 		}
 		c.enc = encMemo{kind: decOf[op], bytes: f[1], value: val, line: line, ok: ok}
+		// the documented wire format, written out independently of the generated code: fields in ascending order,
+		// zero scalars and empty byte fields elided, the Value field and every list element always present
+		if want, okw := wantEncoding(op, in, len(args)); okw {
+			got := f[1]
+			if got == "-" {
+				got = ""
+			}
+			if !strings.EqualFold(got, want) {
+				c.Report("C14", line, "encoding differs from the documented wire format (fields in ascending order, zero / empty scalar fields elided, every list element present): got "+got+", documented "+want)
+			}
+		}
 	case "dectoken", "decmeta", "decroles", "bigdec":
 		m := c.enc
 		c.enc = encMemo{}
@@ -249,4 +261,136 @@ func hasAtByte(h string) bool {
 		}
 	}
 	return false
+}
+
+// ---------------------------------------------------------------------------
+// C14: the documented wire format, written out by hand (proto3, data/esdt/esdt.proto)
+// ---------------------------------------------------------------------------
+
+func pbVarint(n uint64) []byte {
+	var b []byte
+	for n >= 128 {
+		b = append(b, byte(n%128+128))
+		n /= 128
+	}
+	return append(b, byte(n))
+}
+
+func pbLen(tag byte, b []byte) []byte {
+	return append(append([]byte{tag}, pbVarint(uint64(len(b)))...), b...)
+}
+
+func pbBytes(tag byte, b []byte) []byte {
+	if len(b) == 0 {
+		return nil
+	}
+	return pbLen(tag, b)
+}
+
+func pbUint(tag byte, n uint64) []byte {
+	if n == 0 {
+		return nil
+	}
+	return append([]byte{tag}, pbVarint(n)...)
+}
+
+// pbBig: BigIntCaster - nil is the single byte 00, zero is 00 00, otherwise a sign byte and the magnitude
+func pbBig(s string) ([]byte, bool) {
+	if s == "n" {
+		return []byte{0}, true
+	}
+	v, ok := new(big.Int).SetString(s, 10)
+	if !ok {
+		return nil, false
+	}
+	if v.Sign() == 0 {
+		return []byte{0, 0}, true
+	}
+	sign := byte(0)
+	if v.Sign() < 0 {
+		sign = 1
+	}
+	return append([]byte{sign}, new(big.Int).Abs(v).Bytes()...), true
+}
+
+func unhexOK(s string) ([]byte, bool) {
+	if s == "-" || s == "" {
+		return nil, true
+	}
+	b, err := hex.DecodeString(s)
+	return b, err == nil
+}
+
+func wantMeta(s string) ([]byte, bool) {
+	f := strings.Split(s, ":")
+	if len(f) != 7 {
+		return nil, false
+	}
+	nonce, err1 := strconv.ParseUint(f[0], 10, 64)
+	roy, err2 := strconv.ParseUint(f[3], 10, 32)
+	name, ok1 := unhexOK(f[1])
+	creator, ok2 := unhexOK(f[2])
+	hash, ok3 := unhexOK(f[4])
+	attrs, ok4 := unhexOK(f[5])
+	if err1 != nil || err2 != nil || !ok1 || !ok2 || !ok3 || !ok4 {
+		return nil, false
+	}
+	var out []byte
+	out = append(out, pbUint(0x08, nonce)...)
+	out = append(out, pbBytes(0x12, name)...)
+	out = append(out, pbBytes(0x1a, creator)...)
+	out = append(out, pbUint(0x20, roy)...)
+	out = append(out, pbBytes(0x2a, hash)...)
+	if f[6] != "" {
+		for _, u := range strings.Split(f[6], ".") {
+			ub, ok := unhexOK(u)
+			if !ok {
+				return nil, false
+			}
+			out = append(out, pbLen(0x32, ub)...)
+		}
+	}
+	out = append(out, pbBytes(0x3a, attrs)...)
+	return out, true
+}
+
+// wantEncoding returns the hex of the documented encoding of the op's input (ok=false: input form not covered).
+func wantEncoding(op, in string, nargs int) (string, bool) {
+	switch op {
+	case "bigenc":
+		b, ok := pbBig(in)
+		return hex.EncodeToString(b), ok
+	case "encmeta":
+		if in == "n" || nargs != 1 {
+			return "", false
+		}
+		b, ok := wantMeta(in)
+		return hex.EncodeToString(b), ok
+	case "enctoken":
+		f := strings.Split(in, "/")
+		if len(f) != 5 || nargs != 1 {
+			return "", false
+		}
+		typ, err := strconv.ParseUint(f[0], 10, 32)
+		val, ok1 := pbBig(f[1])
+		props, ok2 := unhexOK(f[2])
+		res, ok3 := unhexOK(f[3])
+		if err != nil || !ok1 || !ok2 || !ok3 {
+			return "", false
+		}
+		var out []byte
+		out = append(out, pbUint(0x08, typ)...)
+		out = append(out, pbLen(0x12, val)...)
+		out = append(out, pbBytes(0x1a, props)...)
+		if f[4] != "n" {
+			m, ok := wantMeta(f[4])
+			if !ok {
+				return "", false
+			}
+			out = append(out, pbLen(0x22, m)...)
+		}
+		out = append(out, pbBytes(0x2a, res)...)
+		return hex.EncodeToString(out), true
+	}
+	return "", false
 }
